@@ -161,8 +161,9 @@ QUICK = [
 ]
 HEAVY = {"half-integer-res.can", "identical-particles-image.can", "four-body-topology0.can",
          "four-body-topology1.can"}
-FULL_D3 = {"one-res.hel", "same-res-two-topologies+prefix-name.hel", "identical-particles-image.hel",
-           "half-integer-res.hel"}
+FULL_D3 = {"one-res.hel", "identical-particles-image.hel"}
+D4_REDUCED = {"two-res-two-topologies.can", "three-res.can", "several-L-spin2.can", "three-res.hel",
+              "four-body-topology1.hel", "two-res-two-topologies.hel"}
 
 
 def thorough_table() -> list:
@@ -171,7 +172,7 @@ def thorough_table() -> list:
         if name in HEAVY:
             out.append((name, "cat", TB if "half" not in name else TC, 2))
             continue
-        out.append((name, "cat", TAGS, 4))
+        out.append((name, "cat", TAGS if name not in D4_REDUCED else T4A, 4))
         if name in FULL_D3:
             out.append((name, "full", TAGS, 3))
         elif name.endswith(".hel"):
@@ -182,9 +183,9 @@ def thorough_table() -> list:
         ("jpsi_gpipi_f0f2.hel", "cat", TAGS, 4), ("jpsi_gpipi_f0f2.hel", "full", TAGS, 3),
         ("jpsi_gpipi_f0f2.can", "cat", TAGS, 4), ("jpsi_gpipi_f0f2.can", "full", T4B, 3),
         ("jpsi_gpipi_omega.hel", "cat", TAGS, 4), ("jpsi_gpipi_omega.hel", "full", T4A, 3),
-        ("jpsi_gpipi_omega.can", "cat", TAGS, 4), ("jpsi_gpipi_omega.can", "full", T4B, 3),
+        ("jpsi_gpipi_omega.can", "cat", T4A, 4), ("jpsi_gpipi_omega.can", "full", T4B, 3),
         ("lc_pkpi.hel", "cat", TAGS, 3), ("lc_pkpi.hel", "cat", T4A, 4), ("lc_pkpi.can", "cat", T4B, 3),
-        ("jpsi_ksp_sigma_n.hel", "cat", TAGS, 4), ("jpsi_ksp_sigma_n.can", "cat", T4B, 3),
+        ("jpsi_ksp_sigma_n.hel", "cat", T4B, 4), ("jpsi_ksp_sigma_n.can", "cat", T4B, 3),
     ]
     return out
 
